@@ -83,11 +83,14 @@ where
         key_bundle: LongTermKeyBundle,
     ) -> Result<KeyRegistryState<ID>, KeyRegistryError> {
         key_bundle.verify()?;
-        let existing = y.identities.insert(id, *key_bundle.identity_key());
-        if let Some(existing) = existing {
-            // Sanity check.
-            assert_eq!(&existing, key_bundle.identity_key());
+        // The identity key of a member never changes. Bundles arrive from the network, so a
+        // mismatch is an invalid input and not a bug in our own logic.
+        if let Some(existing) = y.identities.get(&id)
+            && existing != key_bundle.identity_key()
+        {
+            return Err(KeyRegistryError::IdentityKeyMismatch);
         }
+        y.identities.insert(id, *key_bundle.identity_key());
         y.longterm_bundles
             .entry(id)
             .and_modify(|bundles| bundles.push(key_bundle.clone()))
@@ -118,11 +121,14 @@ where
         key_bundle: OneTimeKeyBundle,
     ) -> Result<KeyRegistryState<ID>, KeyRegistryError> {
         key_bundle.verify()?;
-        let existing = y.identities.insert(id, *key_bundle.identity_key());
-        if let Some(existing) = existing {
-            // Sanity check.
-            assert_eq!(&existing, key_bundle.identity_key());
+        // The identity key of a member never changes. Bundles arrive from the network, so a
+        // mismatch is an invalid input and not a bug in our own logic.
+        if let Some(existing) = y.identities.get(&id)
+            && existing != key_bundle.identity_key()
+        {
+            return Err(KeyRegistryError::IdentityKeyMismatch);
         }
+        y.identities.insert(id, *key_bundle.identity_key());
         y.onetime_bundles
             .entry(id)
             .and_modify(|bundles| bundles.push(key_bundle.clone()))
@@ -204,6 +210,9 @@ pub enum KeyRegistryError {
 
     #[error("all available key bundles of this member expired")]
     KeyBundlesExpired,
+
+    #[error("identity key of bundle does not match the one already known for this member")]
+    IdentityKeyMismatch,
 }
 
 #[cfg(test)]
